@@ -673,6 +673,19 @@ func (g *fnGen) evalCall(x *SCall, env *evalEnv) (string, types.Type, error) {
 			ne.mode = "pre"
 		}
 		return g.eval(x.Args[0], &ne)
+	case "deref":
+		// deref(p): the value a pointer points to
+		if err := argn(1); err != nil {
+			return "", nil, err
+		}
+		v, t, err := g.eval(x.Args[0], env)
+		if err != nil {
+			return "", nil, err
+		}
+		if _, ok := t.Underlying().(*types.Pointer); !ok {
+			return "", nil, fmt.Errorf("deref: %s is not a pointer", t)
+		}
+		return g.loadAt(env.cur, deref(t), v), deref(t), nil
 	case "atlock":
 		// atlock(e): e in the state right after the most recent lock acquisition
 		if err := argn(1); err != nil {
